@@ -117,10 +117,18 @@ def rewrite(text, rnd):
             out.append(ln2)
         if trail and rnd.random() < 0.4:
             out[-1] = out[-1] + rnd.choice([' ', '  ', '\t', ' \t '])
-    eol = rnd.choice(['\n', '\r\n'])
+    eol = rnd.choice(['\n', '\r\n', 'mixed'])
     form = rnd.choice(['str', 'list', 'tuple', 'gen', 'str'])
+    if eol == 'mixed':
+        # ONE text whose lines end in LF here and CRLF there: every line end is decided on its own
+
+        class _Mixed(str):
+            def join(self, parts):  # pylint: disable=arguments-renamed
+                parts = list(parts)
+                return ''.join(p + (rnd.choice(['\n', '\r\n']) if k < len(parts) - 1 else '') for k, p in enumerate(parts))
+        eol = _Mixed('mixed')
     if form == 'str':
-        return eol.join(out), f'{indent_mode},{"crlf" if eol != chr(10) else "lf"},str'
+        return eol.join(out), f'{indent_mode},{"mixed" if eol == "mixed" else ("crlf" if eol != chr(10) else "lf")},str'
     ncuts = rnd.randint(0, min(6, len(out) - 1)) if len(out) > 1 else 0
     cuts = sorted(rnd.sample(range(1, len(out)), ncuts)) if ncuts else []
     chunks = [eol.join(out[a:b]) for a, b in zip([0] + cuts, cuts + [len(out)])]
@@ -128,7 +136,7 @@ def rewrite(text, rnd):
         chunks = tuple(chunks)
     elif form == 'gen':
         chunks = (c for c in list(chunks))
-    return chunks, f'{indent_mode},{"crlf" if eol != chr(10) else "lf"},{form}{len(cuts)}'
+    return chunks, f'{indent_mode},{"mixed" if eol == "mixed" else ("crlf" if eol != chr(10) else "lf")},{form}{len(cuts)}'
 
 
 FAILING = ['xx = 1 + \\', 'aa = fn(1, \\\n  2, \\', 'function ff():\n    aa = 1', 'if xx:', 'while xx:\n    yy = 1 \\', 'xx = (1 +', "xx = 'abc", 'for xx in yy:\nendif',
